@@ -134,6 +134,12 @@ func (tdsChan *Channel) Reset() {
 		return
 	}
 
+	tdsChan.reset()
+}
+
+// reset is Reset for callers that already hold the read lock and have
+// checked that the channel isn't closed.
+func (tdsChan *Channel) reset() {
 	tdsChan.CurrentHeaderType = TDS_BUF_NORMAL
 	tdsChan.queueTx.Reset()
 	tdsChan.lastPkgTx = nil
@@ -494,7 +500,11 @@ func (tdsChan *Channel) SendRemainingPackets(ctx context.Context) error {
 
 	// SendRemainingPackets is only called when completing sending
 	// packets to the server and preparing to receive the answer.
-	defer tdsChan.Reset()
+	//
+	// The read lock is already held - calling Reset would acquire it
+	// a second time, which deadlocks if Close requests the write lock
+	// in between.
+	defer tdsChan.reset()
 	return tdsChan.sendPackets(ctx, false)
 }
 
